@@ -1,8 +1,12 @@
 """Structural decomposition of the private-batch wrapper (`build_private_batch_constraints`).
-Produces obligations tagged with the properties they serve (C06, C07, C08, C09, C10, C36)."""
+Produces obligations tagged with the properties they serve (C06, C07, C08, C09, C10, C36).
+
+All index reasoning is done on loop-canonical terms (rules/lc.py): iterator loops (`take`, `enumerate`, `zip`), range loops with indexing and
+`map(..).collect()` vectors give the same terms; a vector filled by one unconditional push per iteration is read through (`v[x]` is the
+pushed value at position x); helpers of the aggregator crate are expanded in place."""
 from . import terms as T
 from . import pat as P
-from . import circ
+from . import circ, lc
 from .pat import V, K, Cb, Phi, Rec, Any
 from .facts import AnchorMissing
 
@@ -29,6 +33,31 @@ def consts(prog):
     return {n: prog.const_value("private_batch::circuit::constants::" + n) for n in names}
 
 
+def masked(t):
+    """(d, x) when t is x unless boolean d holds (then zero): select(d, 0, x) | select(not d, x, 0) | mul(not d, x)"""
+    b = P.match(Cb("cb.select", V("d"), K(0), V("x")), t)
+    if b:
+        return b["d"], b["x"]
+    b = P.match(Cb("cb.select", Cb("cb.not", V("d")), V("x"), K(0)), t)
+    if b:
+        return b["d"], b["x"]
+    b = P.match(Cb("cb.mul", Cb("cb.not", V("d")), V("x")), t)
+    if b:
+        return b["d"], b["x"]
+    return None
+
+
+def kept_when(t):
+    """(m, x) when t is x if boolean m holds, else zero: select(m, x, 0) | mul(m, x)"""
+    b = P.match(Cb("cb.select", V("m"), V("x"), K(0)), t)
+    if b:
+        return b["m"], b["x"]
+    b = P.match(Cb("cb.mul", V("m"), V("x")), t)
+    if b and (P.call_name(b["m"]) or "").endswith("gadgets::bytes_digest_eq"):
+        return b["m"], b["x"]
+    return None
+
+
 class PBView:
     def __init__(self, ck, prog=None):
         prog = prog or ck.prog
@@ -45,39 +74,78 @@ class PBView:
         self.targets = ("param", self.body.path, 2, "targets")
         self.n = ("param", self.body.path, 3, "n_leaf")
         self.proofs = ("fld", self.targets, "leaf_proofs")
+        self._nests = {}
+        self._filled = {}
+
+    # ---- canonical terms ---------------------------------------------------------------
+    def nest(self, e):
+        if id(e) not in self._nests:
+            if None not in self._nests:
+                self._nests[None] = lc.frame_nest(self.fr)
+            self._nests[id(e)] = lc.Nest(e, fallback=self._nests[None])
+        return self._nests[id(e)]
+
+    def C(self, t, e=None):
+        """loop-canonical form of a term, relative to e's loop nest when given; loops elsewhere in the function (the one a
+        loop-carried value was built in) are resolved through the frame-level nest"""
+        if e is None:
+            if None not in self._nests:
+                self._nests[None] = lc.frame_nest(self.fr)
+            return P.norm(lc.Nest(loops=[], fallback=self._nests[None]).canon(P.norm(t)))
+        return P.norm(self.nest(e).canon(P.norm(t)))
+
+    def filled(self, cont):
+        """(value, var) when the vector `cont` (a Vec::new / with_capacity site) is filled by exactly one unconditional push per iteration
+        of one loop and never touched otherwise: cont[x] is then value[var := x]"""
+        cont = P.norm(cont)
+        if cont in self._filled:
+            return self._filled[cont]
+        res = None
+        nm = P.call_name(cont) or ""
+        if nm.endswith(("Vec::<T>::new", "Vec::<T>::with_capacity")):
+            items = T.contents(self.effects, cont)
+            if len(items) == 1 and items[0][0] == "one":
+                e = items[0][2]
+                ns = self.nest(e)
+                if ns.depth() == 1 and ns.var(0) is not None and ns.var(0)[1] == 0 and not circ.uncond_problems(e):
+                    res = (self.C(items[0][1], e), ns.var(0))
+        self._filled[cont] = res
+        return res
+
+    def resolve(self, c):
+        """read through filled vectors: idx(cont, x) -> the pushed value at position x (one level)"""
+        c = P.norm(c)
+        if isinstance(c, tuple) and c and c[0] == "idx":
+            f = self.filled(c[1])
+            if f is not None:
+                return P.norm(T.subst(f[0], f[1], c[2]))
+        return c
 
     # pis of proof i
-    def pis_index(self, t):
-        """i if t == targets.leaf_proofs[i].public_inputs (also elem(...) forms: returns ('elem*', iterable))"""
-        t = P.norm(t)
-        if isinstance(t, tuple) and t and t[0] == "fld" and t[2] == "public_inputs":
-            b = t[1]
+    def pis_index(self, c):
+        """index IX if c == targets.leaf_proofs[IX].public_inputs (canonical)"""
+        c = P.norm(c)
+        if isinstance(c, tuple) and c and c[0] == "fld" and c[2] == "public_inputs":
+            b = P.norm(c[1])
             if isinstance(b, tuple) and b and b[0] == "idx" and b[1] == self.proofs:
                 return b[2]
-            if isinstance(b, tuple) and b and b[0] == "elem":
-                it = b[1]
-                while isinstance(it, tuple) and it and it[0] in ("take",):
-                    it = it[1]
-                if it == self.proofs:
-                    return ("elem", b[1])
         return None
 
-    def read(self, t):
-        """(index, offset, width) if t reads limb(s) of a child's public inputs, else None"""
-        t = P.norm(t)
-        n = P.call_name(t)
+    def read(self, c):
+        """(index, offset, width) if the canonical term reads limb(s) of a child's public inputs, else None"""
+        c = self.resolve(c)
+        n = P.call_name(c)
         if n and (n.endswith("gadgets::limb1_at_offset") or n.endswith("gadgets::limbs4_at_offset")):
-            cga = t[3]
-            args = t[4]
+            cga = c[3]
+            args = c[4]
             i = self.pis_index(args[0])
             if i is not None and len(cga) >= 2 and cga[0] == self.K["LEAF_PI_LEN"] and P.const_of(args[1]) == 0:
                 return (i, cga[1], 4 if n.endswith("limbs4_at_offset") else 1)
             return ("?", None, 0)
-        if isinstance(t, tuple) and t and t[0] == "idx":
-            i = self.pis_index(t[1])
+        if isinstance(c, tuple) and c and c[0] == "idx":
+            i = self.pis_index(c[1])
             if i is not None:
-                off = P.const_of(t[2])
-                return (i, off, 1)
+                return (i, P.const_of(c[2]), 1)
         return None
 
 
@@ -85,18 +153,20 @@ def _is(t, name):
     return P.cb_args(t, name)
 
 
-def unmap(l):
-    """iterable with `map(closure)` layers removed (the closure's effect is already applied to the element term)"""
-    if isinstance(l, tuple) and l:
-        if l[0] == "map":
-            return unmap(l[1])
-        if l[0] in ("take", "skip"):
-            return (l[0], unmap(l[1]), l[2])
-        if l[0] in ("enumerate", "rev"):
-            return (l[0], unmap(l[1]))
-        if l[0] == "zip":
-            return ("zip", unmap(l[1]), unmap(l[2]))
-    return l
+def _expand_items(v, seq):
+    """output items with array-valued appends split into their elements (an array literal and `array::from_fn::<_, N, _>` alike)"""
+    out = []
+    for k, t, e in seq:
+        tt = P.norm(t) if t is not None else None
+        if k == "all" and isinstance(tt, tuple) and tt and tt[0] == "from_fn":
+            ne = v.ev.site_effect.get(tt[2]) if len(tt) > 2 else None
+            n_ = ne.cga[-1] if (ne is not None and ne.cga and isinstance(ne.cga[-1], int)) else None
+            if n_ is not None and n_ <= 8:
+                for j in range(n_):
+                    out.append(("one", v.fr.index(tt, ("c", j, None)), e))
+                continue
+        out.append((k, t, e))
+    return out
 
 
 def analyse(ck, prog=None):
@@ -106,10 +176,20 @@ def analyse(ck, prog=None):
     Kc = v.K
     fr = v.fr
     n = v.n
+    C = v.C
+    nest = v.nest
     loc0 = "%s:%s" % (v.body.file, v.body.line)
 
     def loc(e):
         return e.loc if e is not None else loc0
+
+    def over_slots(x):
+        """x is a loop variable ranging over 0..n_leaf"""
+        return lc.is_var(x, 0, n)
+
+    def twice_n(t):
+        """the build-time term t equals 2 * n_leaf"""
+        return isinstance(t, int) is False and all(eval_int(t, {n: k}) == 2 * k for k in (1, 2, 7, 64))
 
     # ---------------------------------------------------------------- output vector
     regs = [e for e in effs if e.name in ("cb.register_public_inputs", "cb.register_public_input")]
@@ -120,10 +200,9 @@ def analyse(ck, prog=None):
     circ_bad = circ.uncond_problems(regs[0])
     ob.add({"C06"}, not circ_bad, "UNCOND", "pb/register-uncond", "register_public_inputs is unconditional", loc(regs[0]))
     out = P.norm(regs[0].args[1])
-    seq = T.contents(effs, out)
+    seq = _expand_items(v, T.contents(effs, out))
     ob.add({"C06"}, P.call_name(out) is not None and "Vec" in P.call_name(out), "PROV", "pb/output-vector", "the registered vector is a locally built Vec", loc(regs[0]), T.show(out))
 
-    # locate the containers by what is pushed into them
     def container_pushes(c):
         return T.contents(effs, c)
 
@@ -132,7 +211,7 @@ def analyse(ck, prog=None):
     d_eff = None
     for e in effs:
         if e.raw.get("name") == "push" and len(e.args) == 2:
-            val = P.norm(e.args[1])
+            val = C(e.args[1], e)
             nm = P.call_name(val)
             if nm and nm.endswith("gadgets::bytes_digest_eq"):
                 a = [P.norm(x) for x in val[4][1:]]
@@ -147,19 +226,20 @@ def analyse(ck, prog=None):
     if D is None:
         ob.add({"C06", "C07", "C09", "C08"}, False, "TERM", "pb/is-dummy-flag", "no per-slot flag is_dummy_i = bytes_digest_eq(block_hash_i, [0;4]) found", loc0)
         return ob, v
+    D = P.norm(D)
     dpush = container_pushes(D)
     ob.add({"C06", "C07", "C09"}, len(dpush) == 1 and dpush[0][0] == "one", "TERM", "pb/is-dummy-flag",
            "is_dummy_i = bytes_digest_eq(limbs4<%d,BLOCK_HASH_START=%d>(pis_i), [zero;4]), one flag per slot, nothing else written to the flag vector" % (Kc["LEAF_PI_LEN"], Kc["BLOCK_HASH_START"]),
            loc(d_eff), [(k, T.show(t)[:200]) for k, t, _ in dpush])
-    d_loop = circ.loops_of(d_eff)
-    take_ok = len(d_loop) == 1 and unmap(d_loop[0]) == ("take", v.proofs, n) and isinstance(d_read[0], tuple) and d_read[0][0] == "elem" and d_read[0][1] == unmap(d_loop[0])
+    d_nest = nest(d_eff)
+    take_ok = d_nest.depth() == 1 and d_nest.var(0) == d_read[0] and over_slots(d_read[0]) and not circ.uncond_problems(d_eff)
     # the iterable is the per-proof PI view in proof order
     ob.add({"C06", "C07", "C09"}, take_ok, "TERM", "pb/is-dummy-flag/all-slots", "flags are pushed once per proof, in proof order, for the first n_leaf proofs (D[i] belongs to proof i)", loc(d_eff),
-           [T.show(x)[:200] for x in d_loop])
+           [T.show(x)[:200] for x in d_nest.loops])
     # block hashes container: same loop, pushes the same block term
     for e in effs:
-        if e.raw.get("name") == "push" and len(e.args) == 2 and P.norm(e.args[1]) == d_block and e.args[0] != D and circ.loops_of(e) == d_loop:
-            B = e.args[0]
+        if e.raw.get("name") == "push" and len(e.args) == 2 and P.norm(e.args[0]) != D and circ.loops_of(e) == d_nest.loops and C(e.args[1], e) == d_block:
+            B = P.norm(e.args[0])
     ob.add({"C06", "C07"}, B is not None and len(container_pushes(B)) == 1, "TERM", "pb/block-hashes", "block_hashes[i] is the same BLOCK_HASH limbs read as the flag's operand, pushed in the same loop", loc(d_eff))
 
     def Dat(t):
@@ -173,9 +253,17 @@ def analyse(ck, prog=None):
         a = P.match(Cb("cb.not", V("x")), t)
         return Dat(a["x"]) if a else None
 
+    def block_of(t):
+        """index i if t is block hash i: block_hashes[i] or the same limbs4 read"""
+        t = P.norm(t)
+        if B is not None and isinstance(t, tuple) and t and t[0] == "idx" and t[1] == B:
+            return t[2]
+        r = v.read(t)
+        if r and r[1] == Kc["BLOCK_HASH_START"] and r[2] == 4:
+            return r[0]
+        return None
+
     # ---------------------------------------------------------------- first-real scan
-    rng_n = None
-    scan = {}
     items = list(seq)
 
     def scan_select(step, key):
@@ -208,15 +296,14 @@ def analyse(ck, prog=None):
                             recs = [x for x in o if isinstance(x, tuple) and x[0] in ("rec", "phi")]
                             others = [x for x in o if not (isinstance(x, tuple) and x[0] in ("rec", "phi"))]
                             fr_ok = len(recs) == 1 and len(others) == 1 and notD(others[0]) == i[0]
-        r = circ.range_expr(i[0][1]) if (ok and isinstance(i[0], tuple) and i[0][0] == "elem") else None
         # 0..n_leaf, also written 0..is_dummy_flags.len(): the flag vector has exactly one entry per slot (pb/is-dummy-flag/all-slots)
-        rng_ok = r is not None and P.const_of(r[0]) == 0 and (P.norm(r[1]) == n or (take_ok and P.norm(r[1]) == ("len", D)))
+        rng_ok = ok and (over_slots(i[0]) or (take_ok and lc.is_var(i[0], 0, ("len", D))))
         ob.add({"C06", "C09"}, ok and fr_ok and rng_ok, "TERM", "pb/first-real/%s/take" % what,
                "take_i = and(not is_dummy_i, not found_real), found_real = {false, or(found_real, not is_dummy_i)}, i over 0..n_leaf", loc(e), T.show(take, maxdepth=9)[:500])
         return i[0] if ok else None
 
     def expect_scalar_ref(t, off, what, e):
-        t = P.norm(t)
+        t = C(t)
         good = False
         if isinstance(t, tuple) and t[0] == "phi" and len(t[2]) == 2:
             init = [m for m in t[2] if P.const_of(m) == 0]
@@ -230,6 +317,7 @@ def analyse(ck, prog=None):
                     good = (i is not None and rd is not None and rd[0] == i and rd[1] == off and rd[2] == 1 and isinstance(keep, tuple) and keep[0] in ("rec", "phi"))
         ob.add({"C06", "C09"}, good, "TERM", "pb/first-real/%s" % what,
                "%s_ref = {zero, select(take_i, pis_i[%d], %s_ref)}: the value of the first non-dummy slot, zero if none" % (what, off, what), loc(e), T.show(t, maxdepth=6)[:400])
+        return t
 
     # expected order of the header
     hdr_ok = len(items) >= 5
@@ -241,19 +329,18 @@ def analyse(ck, prog=None):
             inner = P.norm(c0[0])
             if P.call_name(inner) and inner[4]:
                 v0 = P.norm(inner[4][-1])
-        ob.add({"C06"}, k0 == "one" and v0 == ("bin", "Mul", n, ("c", 2, None)) or v0 == ("bin", "Mul", ("c", 2, None), n), "TERM", "pb/out/num-exit-slots",
+        ob.add({"C06"}, k0 == "one" and v0 is not None and twice_n(v0), "TERM", "pb/out/num-exit-slots",
                "output[0] = constant(2 * n_leaf)", loc(e0), T.show(t0))
         k1, t1, e1 = items[1]
-        rd = v.read(t1)
+        rd = v.read(C(t1))
         ob.add({"C06"}, k1 == "one" and rd is not None and P.const_of(rd[0]) == 0 and rd[1] == Kc["ASSET_ID_START"] and rd[2] == 1, "TERM", "pb/out/asset",
                "output[1] = asset id of slot 0 (all slots are constrained equal to it)", loc(e1), T.show(t1))
-        asset_ref = P.norm(t1)
+        asset_ref = C(t1)
         k2, t2, e2 = items[2]
         ob.add({"C06"}, k2 == "one", "ORDER", "pb/out/fee-pos", "output[2] is one felt (fee reference)", loc(e2))
-        expect_scalar_ref(t2, Kc["VOLUME_FEE_BPS_START"], "fee", e2)
-        fee_ref = P.norm(t2)
+        fee_ref = expect_scalar_ref(t2, Kc["VOLUME_FEE_BPS_START"], "fee", e2)
         k3, t3, e3 = items[3]
-        t3 = P.norm(t3)
+        t3 = C(t3)
         good = False
         if k3 == "all" and isinstance(t3, tuple) and t3[0] == "upd" and isinstance(t3[2], tuple) and t3[2][0] == "array" and len(t3[2][1]) == 4 and all(P.const_of(x) == 0 for x in t3[2][1]) and len(t3[3]) == 1:
             proj, val = t3[3][0]
@@ -263,9 +350,8 @@ def analyse(ck, prog=None):
                 take, bv, keep = s
                 i = check_take(take, "block-hash", e3)
                 bv = P.norm(bv)
-                rj = circ.range_expr(j[1]) if isinstance(j, tuple) and j[0] == "elem" else None
-                good = (i is not None and rj is not None and P.const_of(rj[0]) == 0 and P.const_of(rj[1]) == 4
-                        and bv == ("idx", ("idx", B, i), j) and isinstance(keep, tuple) and keep[0] == "idx" and keep[2] == j)
+                good = (i is not None and lc.is_var(j, 0, 4) and isinstance(bv, tuple) and bv[0] == "idx" and bv[2] == j and block_of(bv[1]) == i
+                        and isinstance(keep, tuple) and keep[0] == "idx" and keep[2] == j)
         ob.add({"C06", "C09"}, good, "TERM", "pb/first-real/block-hash", "block_ref[j] = {zero, select(take_i, block_hashes[i][j], block_ref[j])} for j in 0..4; emitted as 4 felts at output[3..7]", loc(e3), T.show(t3, maxdepth=6)[:500])
         block_ref = t3
         k4, t4, e4 = items[4]
@@ -281,7 +367,7 @@ def analyse(ck, prog=None):
     cons = [e for e in effs if e.name in circ.CONSTRAINT_NAMES and e.name not in ("cb.register_public_inputs",)]
     classified = {}
     for e in cons:
-        ops = [P.norm(x) for x in circ.cb_operands(e)]
+        ops = [C(x, e) for x in circ.cb_operands(e)]
         cls = None
         detail = [T.show(x, maxdepth=6)[:300] for x in ops]
         if e.name == "cb.connect":
@@ -297,7 +383,7 @@ def analyse(ck, prog=None):
                             nm = P.call_name(other)
                             if nm and nm.endswith("gadgets::bytes_digest_eq"):
                                 a = [P.norm(z) for z in other[4][1:]]
-                                if ("idx", B, i) in a and block_ref in a:
+                                if block_ref in a and any(block_of(z) == i for z in a if z != block_ref):
                                     cls = ("block", i)
                             eq = P.cb_args(other, "cb.is_equal")
                             if eq is not None:
@@ -327,29 +413,29 @@ def analyse(ck, prog=None):
         classified.setdefault(cls[0] if cls else None, []).append((e, cls, detail))
     for e, cls, detail in classified.get(None, []):
         ob.add({"C07", "C10"}, False, "INV", "pb/constraint/unexpected@%s" % e.name, "a constraint outside the five acceptance classes (it changes the accepted set)", loc(e), detail)
-    enum_loop = None
     for name, what in (("block", "is_dummy_i OR block_hash_i == block_ref"), ("asset", "asset_i == asset_ref (ungated)"), ("fee", "is_dummy_i OR fee_i == fee_ref")):
         hits = classified.get(name, [])
         ok = len(hits) == 1
         e = hits[0][0] if hits else None
         if ok:
-            loops = circ.loops_of(e)
-            ok_loop = len(loops) == 1 and unmap(loops[0]) == ("enumerate", ("take", v.proofs, n))
+            ns = nest(e)
+            iv = ns.var(0) if ns.depth() == 1 else None
+            ok_loop = iv is not None and over_slots(iv)
             cls = hits[0][1]
             if name in ("block", "fee"):
-                ok_loop = ok_loop and cls[1] == ("index", loops[0][1]) if ok_loop else False
+                ok_loop = ok_loop and cls[1] == iv
             if name == "fee" and ok_loop:
-                ok_loop = cls[2] == ("elem", ("take", v.proofs, n))
+                ok_loop = cls[2] == iv
             if name == "asset" and ok_loop:
-                ok_loop = cls[1] == ("elem", ("take", v.proofs, n))
+                ok_loop = cls[1] == iv
             ob.add({"C07"}, ok_loop and not circ.uncond_problems(e), "TERM+UNCOND", "pb/constraint/%s/every-slot" % name,
-                   "the %s constraint is emitted for every slot i in 0..n_leaf with the flag and the data of the same slot" % name, loc(e), [T.show(l)[:200] for l in loops])
+                   "the %s constraint is emitted for every slot i in 0..n_leaf with the flag and the data of the same slot" % name, loc(e), [T.show(l)[:200] for l in ns.loops])
         ob.add({"C07"}, ok, "INV", "pb/constraint/%s" % name, "exactly one `%s` constraint site (found %d)" % (what, len(hits)), loc(e))
     # asset constraint must not be gated
     hits = classified.get("asset", [])
     if hits:
         e = hits[0][0]
-        ops = [P.norm(x) for x in circ.cb_operands(e)]
+        ops = [C(x, e) for x in circ.cb_operands(e)]
         gated = any(Dat(s) is not None for o in ops for s in T.walk(o))
         ob.add({"C07"}, not gated, "TERM", "pb/constraint/asset/ungated", "asset equality holds for dummy slots too (no flag in its operands)", loc(e))
     hits = classified.get("unique", [])
@@ -357,16 +443,16 @@ def analyse(ck, prog=None):
     e = hits[0][0] if hits else None
     ob.add({"C07"}, ok, "INV", "pb/constraint/unique", "exactly one `NOT(real_i AND real_j AND nullifier_i == nullifier_j)` constraint site (found %d)" % len(hits), loc(e))
     if ok:
-        loops = circ.loops_of(e)
+        ns = nest(e)
         good = False
-        if len(loops) == 2:
-            r0, r1 = circ.range_expr(loops[0]), circ.range_expr(loops[1])
-            if r0 and r1:
-                i = ("elem", loops[0])
-                good = (P.const_of(r0[0]) == 0 and P.norm(r0[1]) == n and P.norm(r1[1]) == n and P.norm(r1[0]) == ("bin", "Add", i, ("c", 1, None)))
-                cls = hits[0][1]
-                good = good and {str(cls[1]), str(cls[2])} == {str(i), str(("elem", loops[1]))}
-        ob.add({"C07"}, good and not circ.uncond_problems(e), "TERM+UNCOND", "pb/constraint/unique/all-pairs", "emitted for every pair i in 0..n, j in i+1..n", loc(e), [T.show(l)[:160] for l in loops])
+        if ns.depth() == 2 and ns.var(0) is not None and ns.var(1) is not None:
+            i, j = ns.var(0), ns.var(1)
+            lo = P.norm(j[1]) if not isinstance(j[1], int) else j[1]
+            next_i = isinstance(lo, tuple) and lo[0] == "bin" and lo[1].startswith("Add") and ((lo[2] == i and P.const_of(lo[3]) == 1) or (lo[3] == i and P.const_of(lo[2]) == 1))
+            good = over_slots(i) and next_i and j[2] == i[2]
+            cls = hits[0][1]
+            good = good and {str(cls[1]), str(cls[2])} == {str(i), str(j)}
+        ob.add({"C07"}, good and not circ.uncond_problems(e), "TERM+UNCOND", "pb/constraint/unique/all-pairs", "emitted for every pair i in 0..n, j in i+1..n", loc(e), [T.show(l)[:160] for l in ns.loops])
     hits = classified.get("range", [])
     ob.add({"C07", "C08"}, len(hits) == 1 and hits[0][1][1] is not None and hits[0][1][1] <= 32, "INV", "pb/constraint/range",
            "exactly one range_check site, on the grouped exit sum, to <= 32 bits (found %d, bits %s)" % (len(hits), hits[0][1][1] if hits else None), loc(hits[0][0]) if hits else loc0)
@@ -374,24 +460,44 @@ def analyse(ck, prog=None):
     # ---------------------------------------------------------------- masking + grouping
     # slot loop: items[5] = final_sum (one), items[6..9] = final_exit limbs
     body_items = items[5:]
-    slot_items = [it for it in body_items if it[2] is not None and len(circ.loops_of(it[2])) == 1 and circ.range_expr(circ.loops_of(it[2])[0])]
+
+    def slot_loop(e_):
+        ns_ = nest(e_)
+        x = ns_.var(0) if ns_.depth() == 1 else None
+        return x if (x is not None and x[1] == 0 and not isinstance(x[2], int) and twice_n(x[2])) else None
+
+    slot_items = [it for it in body_items if it[2] is not None and slot_loop(it[2]) is not None]
     good = len(slot_items) == 5
     SE = SA = None
+    slot = None
     if good:
-        lp = circ.loops_of(slot_items[0][2])[0]
-        r = circ.range_expr(lp)
-        two_n = ("bin", "Mul", n, ("c", 2, None))
-        good = P.const_of(r[0]) == 0 and P.norm(r[1]) == two_n and all(circ.loops_of(it[2]) == [lp] for it in slot_items)
-        slot = ("elem", lp)
+        slot = slot_loop(slot_items[0][2])
+        lp = circ.loops_of(slot_items[0][2])
+        good = all(circ.loops_of(it[2]) == lp and it[0] == "one" for it in slot_items)
     ob.add({"C06"}, good, "ORDER", "pb/out/exit-slots", "after the header, one loop over slot in 0..2*n_leaf appends [sum, exit limb 0..3] per slot (5 felts)", loc(slot_items[0][2]) if slot_items else loc0,
            [(k, T.show(t, maxdepth=3)[:120]) for k, t, _ in body_items[:8]])
+    by_result = {}
+    for e_ in effs:
+        if e_.result is not None:
+            by_result.setdefault(P.norm(e_.result), e_)
+
+    def C_carried(t_raw, e_consumer):
+        """canonical form of a loop-carried value: every member is canonicalised in the nest of the effect that computes it (an inner
+        loop the consumer is not part of keeps its own variable, also when it has the same domain as an enclosing loop)"""
+        t_raw = P.norm(t_raw)
+        if isinstance(t_raw, tuple) and t_raw and t_raw[0] == "phi":
+            return ("phi", t_raw[1], tuple(C(m, by_result.get(P.norm(m), e_consumer)) for m in t_raw[2]))
+        return C(t_raw, e_consumer)
+
     if good:
-        fs = P.norm(slot_items[0][1])
-        b = P.match(Cb("cb.select", V("dup"), K(0), V("acc")), fs)
+        e_s = slot_items[0][2]
+        fs = C(slot_items[0][1], e_s)
+        b_raw = P.match(Cb("cb.select", V("dup"), K(0), V("acc")), P.norm(slot_items[0][1]))
+        b = {"dup": C_carried(b_raw["dup"], e_s), "acc": C_carried(b_raw["acc"], e_s)} if b_raw else None
         gsum = False
         if b:
             dup, acc = P.norm(b["dup"]), P.norm(b["acc"])
-            # acc
+            vj = None
             if isinstance(acc, tuple) and acc[0] == "phi" and len(acc[2]) == 2:
                 init = [m for m in acc[2] if P.const_of(m) == 0]
                 step = [m for m in acc[2] if P.const_of(m) is None]
@@ -402,22 +508,23 @@ def analyse(ck, prog=None):
                         recs = [x for x in a if isinstance(x, tuple) and x[0] in ("rec", "phi")]
                         oth = [x for x in a if not (isinstance(x, tuple) and x[0] in ("rec", "phi"))]
                         if len(recs) == 1 and len(oth) == 1:
-                            s = P.match(Cb("cb.select", V("m"), V("amt"), K(0)), oth[0])
+                            s = kept_when(oth[0])
                             if s:
-                                m, amt = P.norm(s["m"]), P.norm(s["amt"])
+                                m, amt = P.norm(s[0]), P.norm(s[1])
                                 if P.call_name(m) and P.call_name(m).endswith("gadgets::bytes_digest_eq"):
                                     ma = [P.norm(x) for x in m[4][1:]]
-                                    ej = [x for x in ma if isinstance(x, tuple) and x[0] == "elem"]
                                     es = [x for x in ma if isinstance(x, tuple) and x[0] == "idx" and x[2] == slot]
-                                    if len(ej) == 1 and len(es) == 1 and isinstance(amt, tuple) and amt[0] == "elem":
-                                        SE, SA = ej[0][1], amt[1]
+                                    ej = [x for x in ma if isinstance(x, tuple) and x[0] == "idx" and x not in es]
+                                    if len(ej) == 1 and len(es) == 1 and isinstance(amt, tuple) and amt[0] == "idx" and amt[2] == ej[0][2] and lc.is_var(amt[2], 0):
+                                        SE, SA, vj = ej[0][1], amt[1], amt[2]
                                         gsum = es[0][1] == SE
-            ob.add({"C06", "C08"}, gsum, "TERM", "pb/group/sum", "acc = {zero, add(acc, select(exit_j == exit_slot, amount_j, zero))} over ALL (exit_j, amount_j) pairs", loc(slot_items[0][2]), T.show(acc, maxdepth=7)[:500])
+            ob.add({"C06", "C08"}, gsum, "TERM", "pb/group/sum", "acc = {zero, add(acc, select(exit_j == exit_slot, amount_j, zero))} over ALL (exit_j, amount_j) pairs", loc(e_s), T.show(acc, maxdepth=7)[:500])
             if gsum:
-                # the loop that carries acc is the zip of both vectors in full
-                add_sites = [e for e in effs if e.name == "cb.add" and e.result is not None and any(s == P.norm(e.result) for s in T.walk(acc))]
-                zl = [l for e in add_sites for l in circ.loops_of(e) if isinstance(l, tuple) and l[0] == "zip"]
-                ob.add({"C08"}, any(l == ("zip", SE, SA) for l in zl), "TERM", "pb/group/sum-over-all", "the summation loop ranges over zip(slot_exits, slot_amounts) without take/skip", loc(add_sites[0]) if add_sites else loc0, [T.show(l)[:200] for l in zl])
+                # the summation variable ranges over all of both vectors: their zip in full, or 0..2n when both hold one entry per slot
+                fse, fsa = v.filled(SE), v.filled(SA)
+                per_slot = fse is not None and fsa is not None and fse[1] == slot and fsa[1] == slot
+                whole = vj[2] in (("minlen", SE, SA), ("minlen", SA, SE)) or (per_slot and (vj == slot or vj[2] in (("len", SE), ("len", SA))))
+                ob.add({"C08"}, whole, "TERM", "pb/group/sum-over-all", "the summation ranges over every (slot_exits[j], slot_amounts[j]) pair (the zip of both vectors, or 0..2n) without take/skip", loc(e_s), T.show(vj))
                 # is_duplicate
                 gd = False
                 if isinstance(dup, tuple) and dup[0] == "phi" and len(dup[2]) == 2:
@@ -430,12 +537,14 @@ def analyse(ck, prog=None):
                             oth = [x for x in o if not (isinstance(x, tuple) and x[0] in ("rec", "phi"))]
                             if len(oth) == 1 and P.call_name(oth[0]) and P.call_name(oth[0]).endswith("gadgets::bytes_digest_eq"):
                                 ma = [P.norm(x) for x in oth[0][4][1:]]
-                                gd = ("elem", ("take", SE, slot)) in ma and ("idx", SE, slot) in ma
-                ob.add({"C06", "C08"}, gd, "TERM", "pb/group/duplicate", "is_duplicate = {false, or(is_duplicate, exit_earlier == exit_slot)} over slot_exits.take(slot) — exactly the earlier slots", loc(slot_items[0][2]), T.show(dup, maxdepth=6)[:400])
+                                earlier = [x for x in ma if isinstance(x, tuple) and x[0] == "idx" and x[1] == SE and x[2] != slot]
+                                # the earlier-slot variable ranges over exactly 0..slot
+                                gd = ("idx", SE, slot) in ma and len(earlier) == 1 and lc.is_var(earlier[0][2], 0) and earlier[0][2][2] == slot
+                ob.add({"C06", "C08"}, gd, "TERM", "pb/group/duplicate", "is_duplicate = {false, or(is_duplicate, exit_earlier == exit_slot)} over slot_exits.take(slot) — exactly the earlier slots", loc(e_s), T.show(dup, maxdepth=6)[:400])
                 # final exit limbs
                 fe = True
                 for k in range(4):
-                    tk = P.norm(slot_items[1 + k][1])
+                    tk = C(slot_items[1 + k][1], slot_items[1 + k][2])
                     bb = P.match(Cb("cb.select", V("d"), K(0), V("x")), tk)
                     fe = fe and bb is not None and P.norm(bb["d"]) == dup and P.norm(bb["x"]) == ("idx", ("idx", SE, slot), ("c", k, None))
                 ob.add({"C06", "C08", "C09"}, fe, "TERM", "pb/group/final-exit", "final_exit[k] = select(is_duplicate, zero, exit_slot[k]) for k = 0..3, appended in limb order after the sum", loc(slot_items[1][2]))
@@ -443,56 +552,51 @@ def analyse(ck, prog=None):
                 rc = classified.get("range", [])
                 if rc:
                     e = rc[0][0]
-                    ob.add({"C07", "C08"}, P.norm(circ.cb_operands(e)[0]) == fs and circ.loops_of(e) == [lp] and not circ.uncond_problems(e), "TERM+UNCOND", "pb/constraint/range/operand",
+                    ob.add({"C07", "C08"}, C(circ.cb_operands(e)[0], e) == fs and circ.loops_of(e) == circ.loops_of(e_s) and not circ.uncond_problems(e), "TERM+UNCOND", "pb/constraint/range/operand",
                            "range_check(final_sum, 32) for every exit slot", loc(e))
         else:
-            ob.add({"C06", "C08"}, False, "TERM", "pb/group/final-sum", "final_sum = select(is_duplicate, zero, acc)", loc(slot_items[0][2]), T.show(fs, maxdepth=4)[:300])
+            ob.add({"C06", "C08"}, False, "TERM", "pb/group/final-sum", "final_sum = select(is_duplicate, zero, acc)", loc(e_s), T.show(fs, maxdepth=4)[:300])
     # masking of the slot vectors
     if SE is not None:
         for cont, nm in ((SE, "exit"), (SA, "amount")):
             ps = container_pushes(cont)
-            okp = len(ps) == 1 and ps[0][0] == "one" and len(circ.loops_of(ps[0][2])) == 1
+            okp = len(ps) == 1 and ps[0][0] == "one" and slot_loop(ps[0][2]) is not None and not circ.uncond_problems(ps[0][2])
             detail = [(k, T.show(t, maxdepth=5)[:300]) for k, t, _ in ps]
             if okp:
                 e = ps[0][2]
-                lp2 = circ.loops_of(e)[0]
-                r = circ.range_expr(lp2)
-                s2 = ("elem", lp2)
-                okp = r is not None and P.const_of(r[0]) == 0 and P.norm(r[1]) == ("bin", "Mul", n, ("c", 2, None))
+                s2 = slot_loop(e)
                 pidx = ("bin", "Div", s2, ("c", 2, None))
-                val = P.norm(ps[0][1])
-                if nm == "exit":
-                    if isinstance(val, tuple) and val[0] == "from_fn":
-                        J = ("sym", "J")
-                        val = P.norm(fr.index(val, J))
-                    else:
-                        J = None
-                b = P.match(Cb("cb.select", V("d"), K(0), V("raw")), val)
-                okm = b is not None and Dat(b["d"]) == pidx
+                val = C(ps[0][1], e)
+                J = None
+                if nm == "exit" and isinstance(val, tuple) and val[0] == "from_fn":
+                    J = ("sym", "J")
+                    val = C(fr.index(P.norm(ps[0][1]), J), e)
+                mk = masked(val)
+                okm = mk is not None and Dat(mk[0]) == pidx
                 ob.add({"C06", "C08", "C09"}, okp and okm, "TERM", "pb/mask/%s" % nm,
                        "slot_%ss[slot] = select(is_dummy[slot / 2], zero, raw) for slot in 0..2*n_leaf (dummy slots contribute the zero %s)" % (nm, nm), loc(e), detail)
                 if okp and okm:
-                    raw = P.norm(b["raw"])
+                    raw = P.norm(mk[1])
                     # raw comes from the (proof_idx, output_idx) accessor: evaluate it for output_idx 0 and 1
                     pair_ok = False
                     det = None
                     clos = None
                     for x in effs:
-                        if x.raw.get("name") in ("call", "call_mut", "call_once") and circ.loops_of(x) == [lp2] and isinstance(x.args[0], tuple) and x.args[0][0] == "closure":
+                        if x.raw.get("name") in ("call", "call_mut", "call_once") and circ.loops_of(x) == circ.loops_of(e) and isinstance(x.args[0], tuple) and x.args[0][0] == "closure":
                             clos = x
                     if clos is not None:
-                        argt = clos.args[1]
+                        argt = C(clos.args[1], clos)
                         a_ok = isinstance(argt, tuple) and argt[0] == "tuple" and P.norm(argt[1][0]) == pidx and P.norm(argt[1][1]) == ("bin", "Rem", s2, ("c", 2, None))
                         res = []
                         for oi in (0, 1):
                             rt = fr.closure_ret(clos.args[0], [pidx, ("c", oi, None)], site_hint=clos.site + "#o%d" % oi)
                             if isinstance(rt, tuple) and rt[0] == "tuple" and len(rt[1]) == 2:
-                                res.append((v.read(rt[1][0]), v.read(rt[1][1])))
+                                res.append((v.read(C(rt[1][0])), v.read(C(rt[1][1]))))
                         want = [((pidx, Kc["EXIT_1_START"], 4), (pidx, Kc["OUTPUT_AMOUNT_1_START"], 1)), ((pidx, Kc["EXIT_2_START"], 4), (pidx, Kc["OUTPUT_AMOUNT_2_START"], 1))]
                         pair_ok = a_ok and res == want
                         det = {"args": T.show(argt)[:200], "evaluated": str(res)[:400]}
                         # and the masked raw value is that accessor's component
-                        comp = fr.closure_ret(clos.args[0], list(argt[1]) if a_ok else [], site_hint=clos.site) if a_ok else None
+                        comp = C(fr.closure_ret(clos.args[0], list(P.norm(clos.args[1])[1]), site_hint=clos.site), clos) if a_ok else None
                         if comp is not None and isinstance(comp, tuple) and comp[0] == "tuple":
                             want_raw = P.norm(comp[1][0]) if nm == "exit" else P.norm(comp[1][1])
                             got_raw = raw[1] if (nm == "exit" and isinstance(raw, tuple) and raw[0] == "idx") else raw
@@ -521,12 +625,14 @@ def analyse(ck, prog=None):
         det = [(k, T.show(t, maxdepth=6)[:600]) for k, t, _ in ps]
         if good:
             e = ps[0][2]
-            arr = P.norm(ps[0][1])
-            lps = circ.loops_of(e)
-            r = circ.range_expr(lps[0]) if len(lps) == 1 else None
-            i = ("elem", lps[0]) if lps else None
-            good = r is not None and P.const_of(r[0]) == 0 and P.norm(r[1]) == n and isinstance(arr, tuple) and arr[0] == "array" and len(arr[1]) == 4
+            arr = C(ps[0][1], e)
+            ns = nest(e)
+            i = ns.var(0) if ns.depth() == 1 else None
+            if isinstance(arr, tuple) and arr and arr[0] == "from_fn":
+                arr = ("array", tuple(C(fr.index(P.norm(ps[0][1]), ("c", k, None)), e) for k in range(4)))
+            good = i is not None and over_slots(i) and isinstance(arr, tuple) and arr[0] == "array" and len(arr[1]) == 4 and not circ.uncond_problems(e)
             if good:
+                from .leaf import double_hash_preimage
                 for k in range(4):
                     b = P.match(Cb("cb.select", V("d"), V("dn"), V("rn")), arr[1][k])
                     if not b or Dat(b["d"]) != i:
@@ -537,7 +643,6 @@ def analyse(ck, prog=None):
                     rrd = v.read(rn[1]) if (isinstance(rn, tuple) and rn[0] == "idx" and rn[2] == ("c", k, None)) else None
                     good = good and rrd == (i, Kc["NULLIFIER_START"], 4)
                     # helpers of the crate are expanded in place, so the dummy replacement is visible as H(H(preimage_i)).elements[k]
-                    from .leaf import double_hash_preimage
                     dpre = double_hash_preimage(dn[1]) if (isinstance(dn, tuple) and dn[0] == "idx" and dn[2] == ("c", k, None)) else None
                     dn_ok = dpre is not None and P.norm(dpre) == ("idx", ("fld", v.targets, "dummy_nullifier_pre_images"), i)
                     okh = okh and dn_ok
@@ -584,6 +689,20 @@ def prog_one(prog, rx):
     return prog.one(rx, AGG)
 
 
+def unmap(l):
+    """iterable with `map(closure)` layers removed (the closure's effect is already applied to the element term)"""
+    if isinstance(l, tuple) and l:
+        if l[0] == "map":
+            return unmap(l[1])
+        if l[0] in ("take", "skip"):
+            return (l[0], unmap(l[1]), l[2])
+        if l[0] in ("enumerate", "rev"):
+            return (l[0], unmap(l[1]))
+        if l[0] == "zip":
+            return ("zip", unmap(l[1]), unmap(l[2]))
+    return l
+
+
 def _and_leaves(t):
     a = P.cb_args(t, "cb.and")
     if a is None:
@@ -593,6 +712,8 @@ def _and_leaves(t):
 
 def eval_int(t, env):
     """evaluate a build-time integer term under an assignment of parameter terms to ints"""
+    if isinstance(t, int):
+        return t
     t = P.norm(t)
     if t in env:
         return env[t]
@@ -613,10 +734,10 @@ def eval_int(t, env):
 # ---- GATE: every flow from a per-slot child field to an output / constraint operand is cut by that slot's dummy gate
 
 def gate_analysis(ob, v):
-    """walk every output item and every constraint operand; a read of child i's public inputs at an offset other than
-    the asset id / block hash must sit (a) in the `else` branch of select(is_dummy_i, ·, X), (b) in the `then` branch of
-    select(c, X, ·) with c an and-tree containing not(is_dummy_i), (c) beside is_dummy_i in an `or`, or (d) beside
-    not(is_dummy_i) in an `and` — with the SAME index term i. Containers are followed through their pushes."""
+    """walk every output item and every constraint operand (loop-canonical terms); a read of child i's public inputs at an offset
+    other than the asset id / block hash must sit (a) in the `else` branch of select(is_dummy_i, ·, X), (b) in the `then` branch of
+    select(c, X, ·) with c an and-tree containing not(is_dummy_i), (c) beside is_dummy_i in an `or`, (d) beside not(is_dummy_i) in an
+    `and`, or (e) as a factor of mul(not(is_dummy_i), ·) — with the SAME index term i. Containers are followed through their pushes."""
     Kc = v.K
     D = v.D
     effs = v.effects
@@ -635,21 +756,18 @@ def gate_analysis(ob, v):
         a = P.match(Cb("cb.not", V("x")), t)
         return Dat(a["x"]) if a else None
 
-    def same_slot(i, guards):
-        if i in guards:
+    def direct_read(t):
+        """a child read in the term itself (not through a filled vector: those are followed as containers, with their own gates)"""
+        n_ = P.call_name(t)
+        if n_ and (n_.endswith("gadgets::limb1_at_offset") or n_.endswith("gadgets::limbs4_at_offset")):
             return True
-        # pis of `elem(take(proofs,n))` under enumerate: index(take(...)) names the same iteration
-        for g in guards:
-            if isinstance(i, tuple) and isinstance(g, tuple) and i[0] == "elem" and g[0] == "index":
-                if unmap(g[1]) == i[1]:
-                    return True
-        return False
+        return isinstance(t, tuple) and t and t[0] == "idx" and v.pis_index(t[1]) is not None
 
     def walk(t, guards, where, depth=0):
         t = P.norm(t)
         if not isinstance(t, tuple) or not t or depth > 60:
             return
-        rd = v.read(t)
+        rd = v.read(t) if direct_read(t) else None
         if rd is not None:
             i, off, w = rd
             checked["reads"] += 1
@@ -660,7 +778,7 @@ def gate_analysis(ob, v):
             if offs <= free_offsets:
                 checked["free"] += 1
                 return
-            if same_slot(i, guards):
+            if i in guards:
                 checked["gated"] += 1
                 return
             problems.append((where, "child field at offset %d of slot %s reaches this point without that slot's dummy gate" % (off, T.show(i)[:80]), T.show(t)[:200]))
@@ -689,8 +807,12 @@ def gate_analysis(ob, v):
                     walk(z, guards | ds, where, depth + 1)
             return
         a = P.cb_args(t, "cb.and")
+        if a is None:
+            a = P.cb_args(t, "cb.mul")
+            if a is not None and not any(notD(z) is not None for z in a):
+                a = None
         if a is not None:
-            lv = _and_leaves(t)
+            lv = _and_leaves(t) if P.cb_args(t, "cb.and") is not None else [P.norm(z) for z in a]
             nots = set(notD(z) for z in lv if notD(z) is not None)
             for z in lv:
                 if notD(z) is None:
@@ -712,12 +834,17 @@ def gate_analysis(ob, v):
                     return
                 base = base[1]
             nm = P.call_name(base)
+            if tag == "idx" and base is t[1] and v.filled(base) is not None:
+                # a vector with one unconditional push per position: v[x] is the pushed value at x, under the guards in force here
+                walk(v.resolve(t), guards, where, depth + 1)
+                walk(t[2], guards, where, depth + 1)
+                return
             if nm and nm.endswith(("Vec::<T>::with_capacity", "Vec::<T>::new")):
                 if base not in seen_cont:
                     seen_cont[base] = True
                     for k, pt, pe in T.contents(effs, base):
                         if pt is not None:
-                            walk(pt, frozenset(), "container pushed at %s" % pe.loc, depth + 1)
+                            walk(v.C(pt, pe), frozenset(), "container pushed at %s" % pe.loc, depth + 1)
                 return
             walk(t[1], guards, where, depth + 1)
             if tag == "idx":
@@ -740,22 +867,22 @@ def gate_analysis(ob, v):
         if tag == "from_fn":
             r = v.fr.index(t, ("sym", "G"))
             if r != ("idx", t, ("sym", "G")):
-                walk(r, guards, where, depth + 1)
+                walk(v.C(r), guards, where, depth + 1)
             return
         if tag in ("fld",):
             walk(t[1], guards, where, depth + 1)
             return
         if tag == "map":
-            walk(v.fr.elem(t), guards, where, depth + 1)
+            walk(v.C(v.fr.elem(t)), guards, where, depth + 1)
             return
 
     for k, t, e in v.seq:
         if t is not None:
-            walk(t, frozenset(), "output append at %s" % e.loc)
+            walk(v.C(t, e), frozenset(), "output append at %s" % e.loc)
     for e in effs:
         if e.name in circ.CONSTRAINT_NAMES and e.name != "cb.register_public_inputs":
             for o in circ.cb_operands(e):
-                walk(o, frozenset(), "constraint at %s" % e.loc)
+                walk(v.C(o, e), frozenset(), "constraint at %s" % e.loc)
     ob.add({"C09"}, not problems, "GATE", "pb/gate/all-flows",
            "every read of a per-slot child field (outputs, exits, fee, block number, nullifier) that reaches the output vector or a constraint passes that slot's dummy gate "
            "(%d reads: %d gated, %d of the sentinel/asset limbs)" % (checked["reads"], checked["gated"], checked["free"]),
